@@ -302,8 +302,16 @@ def m_bitcount(I, st, fr, args, path, gargs, t):
         st._jset('bounds', a, b)
         return Int('u32', b[0], b[1], patom(a))
     if path.endswith('leading_zeros') and lo >= 0:
-        a = st.atoms.get(('lz', pfreeze(X), bits))
         b = (bits - hi.bit_length(), bits - lo.bit_length())
+        if b[0] == b[1]:
+            return K(b[0], 'u32')
+        if b[1] - b[0] <= 3:
+            # few possible values: decide the binade of x (forks), leading_zeros becomes concrete
+            for c in range(b[0], b[1]):
+                if st.decide(padd(X, pconst(2 ** (bits - c - 1)), -1), [NONNEG, NEG]) == 0:
+                    return K(c, 'u32')
+            return K(b[1], 'u32')
+        a = st.atoms.get(('lz', pfreeze(X), bits))
         old = st.bounds.get(a)
         if old is not None:
             b = (max(b[0], old[0]), min(b[1], old[1]))
@@ -1104,3 +1112,18 @@ def m_opt_copied(I, st, fr, args, path, gargs, t):
     if v.variant == 0:
         return none()
     return some(deref(I, st, v.fields[0]))
+
+
+# ----------------------------------------------------------------------------- floats: a float value is its bit pattern
+@model(r'core::f(32|64)::<impl f(32|64)>::from_bits')
+def m_float_from_bits(I, st, fr, args, path, gargs, t):
+    ty = 'f64' if 'f64' in path else 'f32'
+    return Agg('float:' + ty, None, (args[0],))
+
+
+@model(r'core::f(32|64)::<impl f(32|64)>::to_bits')
+def m_float_to_bits(I, st, fr, args, path, gargs, t):
+    v = args[0]
+    if isinstance(v, Agg) and v.kind.startswith('float:'):
+        return v.fields[0]
+    raise Stop('to_bits of %r' % (v,))
